@@ -244,6 +244,8 @@ type Backend struct {
 	// Scripts (consumed front to back). Empty pay script => PaySuccess; empty status script => StTruth.
 	PayScript    []PayAnswer
 	StatusScript []StatusAnswer
+	// PayByHash overrides the pay script for a specific invoice (used when requests run concurrently).
+	PayByHash map[string]PayAnswer
 	// ErrTruth is the ground truth recorded when the pay call answers PayError (what really happened).
 	ErrTruth Truth
 	// CreateInvoiceErr makes CreateInvoice fail; InvoiceStatusErr makes InvoiceStatus fail.
@@ -407,7 +409,9 @@ func (b *Backend) pay(c *Call, request string, amountMsat, maxFee uint64) (light
 	b.Net.mu.Lock()
 	defer b.Net.mu.Unlock()
 	ans := PaySuccess
-	if len(b.PayScript) > 0 {
+	if a, ok := b.PayByHash[c.Hash]; ok {
+		ans = a
+	} else if len(b.PayScript) > 0 {
 		ans = b.PayScript[0]
 		b.PayScript = b.PayScript[1:]
 	}
